@@ -648,14 +648,25 @@ def headProofIndex (numHashes : Nat) (j : Int) : Res Unit :=
   if j < 0 then .err "indices overflow"                                              -- FIX (DA engineer, S5)
   else if (numHashes : Int) ≤ j then .err "indices overflow" else .ok ()
 
-/-- liquidityincentive VoteGauge: weights parsed with LegacyNewDecFromStr, non-negative, total ≤ 1 -/
+/-- `LegacyDec.Add` asserts the 2^256·10^18 range -/
+def decAdd (a b : Int) : Res Int :=
+  if (a + b).natAbs < 2 ^ 256 * 10 ^ 18 then .ok (a + b) else .panic .intRange
+
+/-- liquidityincentive VoteGauge: weights parsed with LegacyNewDecFromStr, non-negative, each ≤ 1 (FIX), summed with the
+    range-asserting `Add`, total ≤ 1 -/
 def headVoteGauge (senderOk : Bool) : List String → Int → Res Unit
   | [], total => if !senderOk then .err "invalid sender" else if total > 10 ^ 18 then .err "total weight" else .ok ()
   | w :: ws, total =>
     if !senderOk then .err "invalid sender" else
     match legacyDecFromStr w with
     | none => .err "invalid weight"
-    | some v => if v < 0 then .err "negative weight" else headVoteGauge senderOk ws (total + v)
+    | some v =>
+      if v < 0 then .err "negative weight"
+      else if v > 10 ^ 18 then .err "weight above one"                               -- FIX (the sum overflowed LegacyDec)
+      else match decAdd total v with
+        | .ok t => headVoteGauge senderOk ws t
+        | .err e => .err e
+        | .panic k => .panic k
 
 /-- liquiditypool CreatePool AS FIXED: denoms valid, 0 ≤ fee < 1, ratio > 1, 0 ≤ offset < 1 -/
 def headCreatePool (authOk baseOk quoteOk : Bool) (fee ratio offset : Option Int) : Res Unit :=
